@@ -584,7 +584,7 @@ func (v *Verifier) replaySource(o *Obligation, fx *FnCtx, fn *ssa.Function, fc *
 	if len(resNames) > 0 {
 		assign = strings.Join(resNames, ", ") + " = "
 	}
-	fmt.Fprintf(&body, "\tpanicked := func() (p interface{}) {\n\t\tdefer func() { p = recover() }()\n\t\t%s%s\n\t\treturn nil\n\t}()\n", assign, call)
+	fmt.Fprintf(&body, "\tpanicked := func() (hvcP interface{}) {\n\t\tdefer func() { hvcP = recover() }()\n\t\t%s%s\n\t\treturn nil\n\t}()\n", assign, call)
 	allowPanic := "false"
 	fmt.Fprintf(&body, "\tif panicked != nil && !%s {\n\t\tfmt.Printf(\"HVC-REPLAY: reproduced: %s panicked: %%v\\n\", panicked)\n\t\treturn\n\t}\n", allowPanic, fn.Name())
 	// result aliases
